@@ -392,7 +392,7 @@ class _Renamer(ast.NodeTransformer):
 
 def _alpha(fn):
     """Alpha-normalise local names (params kept) and drop docstrings / logging calls and string constants."""
-    fn = util.clone(fn)
+    fn = util.positive_ifs(fn)  # `if not s: A else: B` reads `if s: B else: A`
     params = {a.arg for a in fn.args.posonlyargs + fn.args.args + fn.args.kwonlyargs}
     order = {}
     for n in ast.walk(fn):
@@ -530,11 +530,18 @@ def c11_minmaxpol(R):
         fn = ms.get(name)
         R.need(fn is not None, f"ConstraintExpansionMixin.{name} missing")
         found = False
+        answer = [
+            st.targets[0].id
+            for st in walk_no_nested(fn)
+            if isinstance(st, ast.Assign) and isinstance(st.targets[0], ast.Name) and isinstance(st.value, ast.Call) and util.is_super_call(st.value, name)
+        ]
+        ans = answer[0] if len(answer) == 1 else "m"
         for n in ast.walk(fn):
-            if isinstance(n, ast.IfExp) and ast.unparse(n.test) == "signed":
+            if isinstance(n, ast.IfExp) and ast.unparse(n.test) in ("signed", "not signed"):
                 found = True
-                bs = (dotted(n.body.func) or "").split(".")[-1] if isinstance(n.body, ast.Call) else None
-                bu = (dotted(n.orelse.func) or "").split(".")[-1] if isinstance(n.orelse, ast.Call) else None
+                sb, ub = (n.body, n.orelse) if ast.unparse(n.test) == "signed" else (n.orelse, n.body)
+                bs = (dotted(sb.func) or "").split(".")[-1] if isinstance(sb, ast.Call) else None
+                bu = (dotted(ub.func) or "").split(".")[-1] if isinstance(ub, ast.Call) else None
                 R.check(
                     (bs, bu) == (s, u),
                     m,
@@ -545,11 +552,11 @@ def c11_minmaxpol(R):
                 for arm in (n.body, n.orelse):
                     if isinstance(arm, ast.Call) and len(arm.args) == 2:
                         R.check(
-                            ast.unparse(arm.args[0]) == "e" and ast.unparse(arm.args[1]) == "m",
+                            ast.unparse(arm.args[0]) == "e" and ast.unparse(arm.args[1]) == ans,
                             m,
                             arm,
                             "bound is (expression, answer) in that order",
-                            f"bound arguments are ({ast.unparse(arm.args[0])}, {ast.unparse(arm.args[1])}), expected (e, m)",
+                            f"bound arguments are ({ast.unparse(arm.args[0])}, {ast.unparse(arm.args[1])}), expected (the expression, the answer of the delegated query)",
                         )
         R.need(found, f"ConstraintExpansionMixin.{name}: signed/unsigned selection not found")
     # FullFrontend: min narrows with SLE/ULE and calls backend.min ; max SGE/UGE and backend.max
@@ -560,6 +567,7 @@ def c11_minmaxpol(R):
     for name, (s, u) in want.items():
         fn = ms.get(name)
         R.need(fn is not None, f"FullFrontend.{name} missing")
+        fn = util.positive_ifs(fn)
         n_if = 0
         for n in walk_no_nested(fn):
             if isinstance(n, ast.If) and ast.unparse(n.test) == "signed":
@@ -680,7 +688,12 @@ def c11_addreset(R):
                     src = n
             if src is not None and util.depends_on(val, {"__none__"}, fn) is False:
                 arg = util.kw(src, "extra_constraints") or (src.args[0] if src.args else None)
-                if arg is not None and ast.unparse(arg) == "added" and _reaches(val, src, fn):
+                accepted = [
+                    st.targets[0].id
+                    for st in walk_no_nested(fn)
+                    if isinstance(st, ast.Assign) and isinstance(st.targets[0], ast.Name) and isinstance(st.value, ast.Call) and util.is_super_call(st.value, "_add")
+                ]
+                if arg is not None and ast.unparse(arg) in accepted and _reaches(val, src, fn):
                     ok = True
                     R.ok(m, node, "ModelCacheMixin._add keeps only models that satisfy the added constraints")
     if not ok:
@@ -733,7 +746,7 @@ def _reaches(val, src, fn):
 FORWARD_EXEMPT = {
     # (class, method, callee-text) -> reason
     ("LightFrontend", "*"): "documented: the light frontend ignores extra constraints (over-approximates)",
-    ("CompositeFrontend", "check_satisfiability", "s.check_satisfiability"): (
+    ("CompositeFrontend", "check_satisfiability", "<each of self._unchecked_solvers>.check_satisfiability"): (
         "second loop checks children not touched by the extra constraints"
     ),
     ("FullFrontend", "unsat_core", "self._solver_backend.unsat_core"): "backend API takes the solver only",
@@ -803,6 +816,12 @@ def c11_forward(R):
                 continue
             n_deleg += 1
             ctext = ast.unparse(f)
+            # a receiver that is the variable of a loop over one of self's tables is named after the table, not
+            # after the local (`for s in self._unchecked_solvers: s.check_satisfiability(..)`)
+            if isinstance(f, ast.Attribute) and isinstance(f.value, ast.Name):
+                for lp in (x for x in walk_no_nested(fn) if isinstance(x, ast.For) and isinstance(x.target, ast.Name) and x.target.id == f.value.id):
+                    if (dotted(lp.iter) or "").startswith("self."):
+                        ctext = f"<each of {dotted(lp.iter)}>.{f.attr}"
             if (c.name, name, ctext) in FORWARD_EXEMPT:
                 R.ok(m, call, f"{c.name}.{name} -> {ctext}: {FORWARD_EXEMPT[(c.name, name, ctext)]}", nontrivial=False)
                 continue
